@@ -1,5 +1,6 @@
 import LoraVerif.Lemmas.HistoryCSafe
 import LoraVerif.Lemmas.MacWFCmds
+import LoraVerif.Lemmas.RefineOps
 /-!
 # The RX1 delay of every reachable state is between 1 s and 15 s
 
@@ -379,5 +380,103 @@ theorem step_delayOk {σ} (g : Rng σ) (m m' : MacState) (s s' : σ) (ev : Ev) (
         simp only at h
         obtain ⟨⟨r, dl, m2⟩, hc, h⟩ := Except.bind_eq_ok h
         cases h; exact classACycle_delay _ _ _ _ _ _ _ _ hd1 hc
+
+/-! ## extended histories, and the async front-end's timer arithmetic -/
+
+theorem rxcs_delay (m : MacState) (mp : Nat) (cs : List (RxView × Int)) (os : List RxOut) (fin : Bool) (m' : MacState)
+    (hd : DelayOk m) (h : rxcs m mp cs = .ok (os, fin, m')) : DelayOk m' :=
+  delayOk_of_cfg (rxcs_cfg _ _ _ _ _ _ h) hd
+
+theorem winC_delay (cc : Bool) (m : MacState) (cs : List (RxView × Int)) (f : Option (RxView × Int)) (mp : Nat)
+    (eb ea : Bool) (r : Option (Option RxOut)) (hdl : List RxOut) (m' : MacState) (hd : DelayOk m)
+    (h : winC cc m cs f mp eb ea = .ok (r, hdl, m')) : DelayOk m' := by
+  unfold winC at h
+  obtain ⟨⟨os, fin, m1⟩, hb, hk⟩ := Except.bind_eq_ok h
+  have hd1 := delayOk_of_cfg (between_cfg _ _ _ _ _ _ hb) hd
+  simp only at hk
+  split at hk
+  · cases hk; exact hd1
+  · obtain ⟨⟨o, m2⟩, hw, hk2⟩ := Except.bind_eq_ok hk
+    obtain ⟨_, _, hk3⟩ := Except.bind_eq_ok hk2
+    have hd2 := window_delay _ _ _ _ _ hd1 hw
+    simp only at hk3
+    split at hk3 <;> (cases hk3; exact hd2)
+
+theorem cycleC_delay (cc : Bool) (m : MacState) (fault : Option FaultPos) (c1 c2 : List (RxView × Int))
+    (rx1 rx2 : Option (RxView × Int)) (mp1 mp2 : Nat) (fin : ProcEnd) (heard : List RxOut) (m' : MacState) (hd : DelayOk m)
+    (h : cycleC cc m fault c1 rx1 c2 rx2 mp1 mp2 = .ok (fin, heard, m')) : DelayOk m' := by
+  unfold cycleC at h
+  split at h
+  · cases h; exact hd
+  · obtain ⟨⟨r1, h1, m1⟩, hw1, hk⟩ := Except.bind_eq_ok h
+    have hd1 := winC_delay _ _ _ _ _ _ _ _ _ _ hd hw1
+    cases r1 with
+    | none => cases hk; exact hd1
+    | some o1 =>
+      cases o1 with
+      | some o => cases hk; exact hd1
+      | none =>
+        simp only at hk
+        obtain ⟨⟨r2, h2, m2⟩, hw2, hk2⟩ := Except.bind_eq_ok hk
+        have hd2 := winC_delay _ _ _ _ _ _ _ _ _ _ hd1 hw2
+        cases r2 with
+        | none => cases hk2; exact hd2
+        | some o2 => cases o2 <;> (cases hk2; exact hd2)
+
+/-- **every step of an extended history keeps the RX1 delay between 1 s and 15 s** -/
+theorem stepC_delayOk {σ} (g : Rng σ) (m : MacState) (s : σ) (ev : EvC) (ms' : MacState × σ) (oc : OutC) (hd : DelayOk m)
+    (h : stepC g (m, s) ev = .ok (ms', oc)) : DelayOk ms'.1 := by
+  cases ev with
+  | base e =>
+    simp only [stepC] at h
+    obtain ⟨⟨⟨m1, s1⟩, o⟩, hs, hk⟩ := Except.bind_eq_ok h
+    cases hk
+    exact step_delayOk g m m1 s s1 e o hd hs
+  | uplinkC cc data fport conf fault c1 rx1 c2 rx2 =>
+    simp only [stepC] at h
+    obtain ⟨⟨o, m1, s1⟩, hs, hk⟩ := Except.bind_eq_ok h
+    have hd1 := delayOk_of_cfg (macSend_cfg g _ _ _ _ _ _ _ _ hs) hd
+    cases o with
+    | none => cases hk; exact hd1
+    | some o =>
+      simp only at hk
+      obtain ⟨⟨fin, heard, m2⟩, hcy, hk2⟩ := Except.bind_eq_ok hk
+      have hd2 := cycleC_delay _ _ _ _ _ _ _ _ _ _ _ _ hd1 hcy
+      cases fin with
+      | resp ro => cases hk2; exact hd2
+      | complete => cases hk2; exact macRx2Complete_delay _ hd2
+      | cut => cases hk2; exact macRx2Complete_delay _ hd2
+  | joinC cc fault c1 rx1 c2 rx2 =>
+    simp only [stepC] at h
+    obtain ⟨⟨o, m1, s1⟩, hj, hk⟩ := Except.bind_eq_ok h
+    have hd1 := delayOk_of_cfg (macJoinOtaa_cfg g _ _ _ _ _ hj) hd
+    obtain ⟨⟨fin, heard, m2⟩, hcy, hk2⟩ := Except.bind_eq_ok hk
+    have hd2 := cycleC_delay _ _ _ _ _ _ _ _ _ _ _ _ hd1 hcy
+    cases fin with
+    | resp ro => cases hk2; exact hd2
+    | complete => cases hk2; exact macRx2Complete_delay _ hd2
+    | cut => cases hk2; exact hd2
+
+/-- the board's timing constants are sane: the lead time does not exceed the shortest wait
+(1 s + time on air), and the longest (16 s + time on air) fits a `u32` -/
+def TimingOk (cfg : DevCfg) : Prop := cfg.lead ≤ 1000 + cfg.txMs ∧ cfg.txMs + 16000 ≤ 4294967295
+
+theorem macRxDelay_range (m : MacState) (hd : DelayOk m) (join second : Bool) :
+    1000 ≤ macRxDelay m join second ∧ macRxDelay m join second ≤ 16000 := by
+  obtain ⟨h1, h2⟩ := hd
+  cases join <;> cases second <;> simp only [macRxDelay] <;>
+    first
+      | exact ⟨by omega, by omega⟩
+      | (constructor <;> decide)
+
+theorem startDelay_timingOk (cfg : DevCfg) (hT : TimingOk cfg) (d : Nat) (h1 : 1000 ≤ d) (h2 : d ≤ 16000) (e : Fault)
+    (h : startDelay d cfg.txMs cfg.lead = .error e) : False := by
+  obtain ⟨ha, hb⟩ := hT
+  unfold startDelay at h
+  split at h
+  · omega
+  · split at h
+    · omega
+    · cases h
 
 end Model
